@@ -55,6 +55,10 @@ struct Stmt {
     ret: Option<Proj>,
     /// generator's name for the statement's shape (distribution, known classes)
     shape: &'static str,
+    /// what openCypher defines for a generated multi-variable DELETE: (refused?, surviving node ids, surviving rel ids)
+    expect: Option<(bool, BTreeSet<u64>, BTreeSet<u64>)>,
+    /// generator-health tags
+    tags: Vec<&'static str>,
 }
 
 fn to_path(p: &CPath) -> Path {
@@ -317,6 +321,26 @@ fn judge(before: &Graph, after: &Graph, s: &Stmt, obs: &WObs) -> Option<(String,
             }
         }
     }
+    // a generated multi-variable DELETE: exactly what the statement as a whole defines
+    if let Some((refused, nodes, rels)) = &s.expect {
+        let got_n: BTreeSet<u64> = after.nodes.iter().map(|n| n.id).collect();
+        let got_r: BTreeSet<u64> = after.rels.iter().map(|r| r.id).collect();
+        let is_err = matches!(obs, WObs::Err(_));
+        if is_err != *refused || got_n != *nodes || got_r != *rels {
+            return Some((
+                format!(
+                    "DELETE: openCypher {} and leaves nodes {:?}, relationships {:?}; the engine {} and left nodes {:?}, relationships {:?}",
+                    if *refused { "refuses the statement" } else { "deletes what is named" },
+                    nodes,
+                    rels,
+                    if is_err { "refused it" } else { "answered Ok" },
+                    got_n,
+                    got_r
+                ),
+                None,
+            ));
+        }
+    }
     // DELETE without DETACH of a node that keeps a relationship must be refused, nothing changed
     if let [Upd::Delete(false, xs)] = &s.updates[..] {
         if xs.len() == 1 {
@@ -398,6 +422,166 @@ fn match_label(var: u32, l: Option<u32>) -> Clause {
     }
 }
 
+// ---------------------------------------------------------------- multi-variable DELETE
+/// One row of `MATCH (v0)-[v2]->(v1) [MATCH (v3)]`: (a, r, b, extra)
+type DRow = (u64, u64, u64, Option<u64>);
+
+fn permutations<T: Clone>(l: &[T]) -> Vec<Vec<T>> {
+    if l.len() <= 1 {
+        return vec![l.to_vec()];
+    }
+    let mut out = Vec::new();
+    for i in 0..l.len() {
+        let mut rest = l.to_vec();
+        let x = rest.remove(i);
+        for mut p in permutations(&rest) {
+            p.insert(0, x.clone());
+            out.push(p);
+        }
+    }
+    out
+}
+
+fn named(row: &DRow, vars: &[u32]) -> (Vec<u64>, Vec<u64>) {
+    let (mut nodes, mut rels) = (Vec::new(), Vec::new());
+    for v in vars {
+        match v {
+            0 => nodes.push(row.0),
+            1 => nodes.push(row.2),
+            2 => rels.push(row.1),
+            _ => {
+                if let Some(u) = row.3 {
+                    nodes.push(u)
+                }
+            }
+        }
+    }
+    (nodes, rels)
+}
+
+/// openCypher: everything named is deleted; refused (nothing changes) when a deleted node keeps a relationship
+fn delete_statement_level(g: &Graph, rows: &[DRow], vars: &[u32]) -> (bool, BTreeSet<u64>, BTreeSet<u64>) {
+    let mut nodes: BTreeSet<u64> = g.nodes.iter().map(|n| n.id).collect();
+    let mut rels: BTreeSet<u64> = g.rels.iter().map(|r| r.id).collect();
+    let all = (nodes.clone(), rels.clone());
+    for row in rows {
+        let (ns, rs) = named(row, vars);
+        for r in rs {
+            rels.remove(&r);
+        }
+        for n in ns {
+            nodes.remove(&n);
+        }
+    }
+    let dangling = g.rels.iter().any(|r| rels.contains(&r.id) && (!nodes.contains(&r.src) || !nodes.contains(&r.tgt)));
+    if dangling {
+        (true, all.0, all.1)
+    } else {
+        (false, nodes, rels)
+    }
+}
+
+/// the engine's row-at-a-time DELETE (named relationships of the row, then the guard on the row's nodes,
+/// then the nodes), for one row order: (refused?, surviving nodes, surviving rels)
+fn delete_row_at_a_time(g: &Graph, rows: &[DRow], vars: &[u32]) -> (bool, BTreeSet<u64>, BTreeSet<u64>) {
+    let mut nodes: BTreeSet<u64> = g.nodes.iter().map(|n| n.id).collect();
+    let mut rels: BTreeSet<u64> = g.rels.iter().map(|r| r.id).collect();
+    for row in rows {
+        let (ns, rs) = named(row, vars);
+        for r in rs {
+            rels.remove(&r);
+        }
+        for n in &ns {
+            if nodes.contains(n) && g.rels.iter().any(|r| rels.contains(&r.id) && (r.src == *n || r.tgt == *n)) {
+                return (true, nodes, rels);
+            }
+        }
+        for n in ns {
+            nodes.remove(&n);
+        }
+    }
+    (false, nodes, rels)
+}
+
+fn gen_delete_multi(r: &mut Rng, g: &Graph) -> Option<Stmt> {
+    if g.rels.is_empty() {
+        return None;
+    }
+    let e = r.pick(&g.rels).clone();
+    let rpat = |types: Vec<u32>| Path {
+        start: bare(0),
+        segs: vec![(RPat { var: Some(2), types, dir: 0, props: vec![], len: None }, bare(1))],
+    };
+    let ideq = |f: Expr, i: u64| Expr::Cmp(CmpOp::Eq, Box::new(Expr::Fn(Func::Id, vec![f])), Box::new(lit(Val::Int(i as i64))));
+    // which relationships the MATCH produces
+    let (clause, matched): (Clause, Vec<&GRel>) = match r.below(4) {
+        0 | 1 => (Clause::Match { opt: false, pats: vec![rpat(vec![])], wher: Some(ideq(Expr::Var(2), e.id)) }, g.rels.iter().filter(|x| x.id == e.id).collect()),
+        2 => (Clause::Match { opt: false, pats: vec![rpat(vec![])], wher: Some(ideq(Expr::Var(0), e.src)) }, g.rels.iter().filter(|x| x.src == e.src).collect()),
+        _ => (Clause::Match { opt: false, pats: vec![rpat(vec![e.ty])], wher: None }, g.rels.iter().filter(|x| x.ty == e.ty).collect()),
+    };
+    let isolated: Vec<u64> = g.nodes.iter().map(|n| n.id).filter(|i| !g.rels.iter().any(|x| x.src == *i || x.tgt == *i)).collect();
+    let extra = if r.chance(1, 3) {
+        Some(if !isolated.is_empty() && r.chance(3, 4) { *r.pick(&isolated) } else { r.pick(&g.nodes).id })
+    } else {
+        None
+    };
+    let mut reads = vec![clause];
+    if let Some(u) = extra {
+        reads.push(match_one(3, u));
+    }
+    let rows: Vec<DRow> = matched.iter().map(|x| (x.src, x.id, x.tgt, extra)).collect();
+    let lists: Vec<Vec<u32>> = if extra.is_some() {
+        vec![vec![3, 0], vec![0, 3], vec![3, 0, 2], vec![0, 3, 2], vec![3, 2, 0], vec![3, 1, 2, 0], vec![2, 3], vec![3, 3], vec![3, 1]]
+    } else {
+        vec![
+            vec![0, 2], vec![2, 0], vec![1, 2], vec![2, 1], vec![0, 1, 2], vec![0, 2, 1], vec![1, 0, 2], vec![1, 2, 0], vec![2, 0, 1],
+            vec![2, 1, 0], vec![0, 1], vec![1, 0], vec![0, 0], vec![0, 2, 0], vec![2, 2], vec![2, 0, 2],
+        ]
+    };
+    let vars = r.pick(&lists).clone();
+    let want = delete_statement_level(g, &rows, &vars);
+    // the engine decides row by row (known finding delete_guard_per_row): keep to statements on which
+    // every row order gives what the statement as a whole defines
+    let orders: Vec<Vec<DRow>> = if rows.len() <= 4 { permutations(&rows) } else { vec![rows.clone(), rows.iter().rev().cloned().collect()] };
+    if orders.iter().any(|o| delete_row_at_a_time(g, o, &vars) != want) {
+        return None;
+    }
+    let mut tags = vec![];
+    if vars.len() >= 2 {
+        tags.push("delete_multi_var");
+    }
+    if rows.len() >= 2 {
+        tags.push("delete_multi_row");
+    }
+    let pos = |v: u32| vars.iter().position(|x| *x == v);
+    if let Some(pr) = pos(2) {
+        if [0u32, 1].iter().any(|n| pos(*n).map_or(false, |pn| pn < pr)) {
+            tags.push("delete_node_before_its_rel");
+        } else if pos(0).is_some() || pos(1).is_some() {
+            tags.push("delete_rel_before_its_node");
+        }
+    }
+    if pos(0).is_some() && pos(1).is_some() && pos(2).is_some() {
+        tags.push("delete_both_endpoints_and_rel");
+    }
+    let mut d = vars.clone();
+    d.sort();
+    d.dedup();
+    if d.len() < vars.len() {
+        tags.push("delete_duplicate_var");
+    }
+    if extra.is_some() {
+        tags.push("delete_with_other_node");
+    }
+    if want.0 && vars.len() >= 2 && !rows.is_empty() {
+        tags.push("delete_refused_multi_var");
+    }
+    if !want.0 && vars.len() >= 2 && !rows.is_empty() && vars.iter().any(|v| *v != 2) {
+        tags.push("delete_nodes_multi_var_ok");
+    }
+    Some(Stmt { reads, updates: vec![Upd::Delete(false, vars)], ret: None, shape: "delete_multi", expect: Some(want), tags })
+}
+
 fn gen_stmt(r: &mut Rng, g: &Graph) -> Stmt {
     let node = |r: &mut Rng| if g.nodes.is_empty() { 0 } else { r.pick(&g.nodes).id };
     let some_label = |r: &mut Rng| -> Option<u32> {
@@ -409,7 +593,11 @@ fn gen_stmt(r: &mut Rng, g: &Graph) -> Stmt {
         }
     };
     let with_ret = r.chance(1, 2);
-    match r.below(24) {
+    match r.below(31) {
+        24..=30 => match gen_delete_multi(r, g) {
+            Some(s) => s,
+            None => gen_stmt(r, g),
+        },
         0 => {
             let mut np = lit_npat(r, Some(0), 0);
             let null = r.chance(1, 6);
@@ -420,7 +608,7 @@ fn gen_stmt(r: &mut Rng, g: &Graph) -> Stmt {
                 reads: vec![],
                 updates: vec![Upd::Create(vec![CPath { start: np, segs: vec![] }])],
                 ret: if with_ret { Some(ret_props(&[0])) } else { None },
-                shape: if null { "create_null" } else { "create_node" },
+                shape: if null { "create_null" } else { "create_node" }, expect: None, tags: vec![]
             }
         }
         1 => {
@@ -429,7 +617,7 @@ fn gen_stmt(r: &mut Rng, g: &Graph) -> Stmt {
                 reads: vec![],
                 updates: vec![Upd::Create(vec![CPath { start: lit_npat(r, Some(0), 0), segs: vec![(rel, lit_npat(r, Some(1), 0))] }])],
                 ret: None,
-                shape: "create_path",
+                shape: "create_path", expect: None, tags: vec![]
             }
         }
         2 => {
@@ -439,7 +627,7 @@ fn gen_stmt(r: &mut Rng, g: &Graph) -> Stmt {
                 reads: vec![match_one(0, a), match_one(1, b)],
                 updates: vec![Upd::Create(vec![CPath { start: bare(0), segs: vec![(rel, bare(1))] }])],
                 ret: None,
-                shape: "match_create_rel",
+                shape: "match_create_rel", expect: None, tags: vec![]
             }
         }
         3 => Stmt {
@@ -449,7 +637,7 @@ fn gen_stmt(r: &mut Rng, g: &Graph) -> Stmt {
                 segs: vec![],
             }])],
             ret: None,
-            shape: "unwind_create",
+            shape: "unwind_create", expect: None, tags: vec![]
         },
         4 | 5 => {
             // MERGE of a node pattern; often aimed at an existing node so that it matches
@@ -471,7 +659,7 @@ fn gen_stmt(r: &mut Rng, g: &Graph) -> Stmt {
                 reads: vec![],
                 updates: vec![Upd::Merge(CPath { start: np.clone(), segs: vec![] }, oc, om)],
                 ret: if many { Some(ret_count()) } else if with_ret { Some(ret_props(&[0])) } else { None },
-                shape: if many { "merge_many_matches" } else if np.labels.is_empty() { "merge_no_label" } else if multi { "merge_multi_label" } else { "merge_node" },
+                shape: if many { "merge_many_matches" } else if np.labels.is_empty() { "merge_no_label" } else if multi { "merge_multi_label" } else { "merge_node" }, expect: None, tags: vec![]
             }
         }
         6 => {
@@ -490,7 +678,7 @@ fn gen_stmt(r: &mut Rng, g: &Graph) -> Stmt {
                 reads: vec![],
                 updates: vec![Upd::Merge(CPath { start: np, segs: vec![] }, vec![], vec![])],
                 ret: if many { Some(ret_count()) } else if with_ret { Some(ret_props(&[0])) } else { None },
-                shape: if many { "merge_many_matches" } else { "merge_no_label" },
+                shape: if many { "merge_many_matches" } else { "merge_no_label" }, expect: None, tags: vec![]
             }
         }
         7 => Stmt {
@@ -501,7 +689,7 @@ fn gen_stmt(r: &mut Rng, g: &Graph) -> Stmt {
                 vec![],
             )],
             ret: None,
-            shape: "unwind_merge",
+            shape: "unwind_merge", expect: None, tags: vec![]
         },
         8 => {
             let (a, b) = (node(r), node(r));
@@ -510,7 +698,7 @@ fn gen_stmt(r: &mut Rng, g: &Graph) -> Stmt {
                 reads: vec![match_one(0, a), match_one(1, b)],
                 updates: vec![Upd::Merge(CPath { start: bare(0), segs: vec![(rel, bare(1))] }, vec![], vec![])],
                 ret: None,
-                shape: "merge_rel_bound",
+                shape: "merge_rel_bound", expect: None, tags: vec![]
             }
         }
         9 => {
@@ -524,7 +712,7 @@ fn gen_stmt(r: &mut Rng, g: &Graph) -> Stmt {
             if g.rels.iter().any(|e| e.src == e.tgt && e.ty == rel.ty && g.nodes.iter().any(|n| n.id == e.src && fits(n, &a) && fits(n, &b))) {
                 return gen_stmt(r, g);
             }
-            Stmt { reads: vec![], updates: vec![Upd::Merge(CPath { start: a, segs: vec![(rel, b)] }, vec![], vec![])], ret: None, shape: "merge_path" }
+            Stmt { reads: vec![], updates: vec![Upd::Merge(CPath { start: a, segs: vec![(rel, b)] }, vec![], vec![])], ret: None, shape: "merge_path", expect: None, tags: vec![] }
         }
         10 | 11 => {
             let k = r.below(3) as u32;
@@ -538,7 +726,7 @@ fn gen_stmt(r: &mut Rng, g: &Graph) -> Stmt {
                 reads: vec![match_one(0, node(r))],
                 updates: vec![Upd::Set(vec![SetItem::Prop(0, k, rhs)])],
                 ret: if with_ret { Some(ret_props(&[0])) } else { None },
-                shape: if null { "set_null" } else { "set_prop" },
+                shape: if null { "set_null" } else { "set_prop" }, expect: None, tags: vec![]
             }
         }
         12 => {
@@ -548,32 +736,32 @@ fn gen_stmt(r: &mut Rng, g: &Graph) -> Stmt {
                 reads: vec![match_one(0, a), match_one(1, b)],
                 updates: vec![Upd::Set(vec![SetItem::Prop(0, 0, Expr::Prop(1, 0)), SetItem::Prop(1, 0, Expr::Prop(0, 1))])],
                 ret: None,
-                shape: "set_from_other",
+                shape: "set_from_other", expect: None, tags: vec![]
             }
         }
         13 => Stmt {
             reads: vec![match_label(0, some_label(r))],
             updates: vec![Upd::Set(vec![SetItem::Prop(0, 3, lit(Val::Int(5)))])],
             ret: None,
-            shape: "set_prop_many",
+            shape: "set_prop_many", expect: None, tags: vec![]
         },
         14 => Stmt {
             reads: vec![match_one(0, node(r))],
             updates: vec![Upd::Set(vec![SetItem::MapAdd(0, vec![(0, lit(small_lit(r, 0))), (1, if r.chance(1, 2) { lit(Val::Null) } else { lit(small_lit(r, 1)) })])])],
             ret: None,
-            shape: "set_map_add",
+            shape: "set_map_add", expect: None, tags: vec![]
         },
         15 => Stmt {
             reads: vec![match_one(0, node(r))],
             updates: vec![Upd::Set(vec![SetItem::Labels(0, some_labels(r, 1))])],
             ret: if with_ret { Some(ret_props(&[0])) } else { None },
-            shape: "set_labels",
+            shape: "set_labels", expect: None, tags: vec![]
         },
         16 => Stmt {
             reads: vec![match_one(0, node(r))],
             updates: vec![Upd::Remove(vec![if r.chance(1, 2) { RemItem::Prop(0, r.below(3) as u32) } else { RemItem::Labels(0, some_labels(r, 1)) }])],
             ret: None,
-            shape: "remove",
+            shape: "remove", expect: None, tags: vec![]
         },
         17 => {
             // delete one relationship
@@ -592,7 +780,7 @@ fn gen_stmt(r: &mut Rng, g: &Graph) -> Stmt {
                 }],
                 updates: vec![Upd::Delete(false, vec![2])],
                 ret: None,
-                shape: "delete_rel",
+                shape: "delete_rel", expect: None, tags: vec![]
             }
         }
         18 | 19 => {
@@ -602,23 +790,23 @@ fn gen_stmt(r: &mut Rng, g: &Graph) -> Stmt {
                 reads: vec![match_one(0, i)],
                 updates: vec![Upd::Delete(false, vec![0])],
                 ret: None,
-                shape: if connected { "delete_connected" } else { "delete_unconnected" },
+                shape: if connected { "delete_connected" } else { "delete_unconnected" }, expect: None, tags: vec![]
             }
         }
-        20 => Stmt { reads: vec![match_one(0, node(r))], updates: vec![Upd::Delete(true, vec![0])], ret: None, shape: "detach_delete" },
-        21 => Stmt { reads: vec![match_label(0, some_label(r))], updates: vec![Upd::Delete(true, vec![0])], ret: None, shape: "detach_delete_many" },
+        20 => Stmt { reads: vec![match_one(0, node(r))], updates: vec![Upd::Delete(true, vec![0])], ret: None, shape: "detach_delete", expect: None, tags: vec![] },
+        21 => Stmt { reads: vec![match_label(0, some_label(r))], updates: vec![Upd::Delete(true, vec![0])], ret: None, shape: "detach_delete_many", expect: None, tags: vec![] },
         22 => Stmt {
             // a right-hand side that is an error
             reads: vec![match_one(0, node(r))],
             updates: vec![Upd::Set(vec![SetItem::Prop(0, 0, Expr::Arith(ArOp::Div, Box::new(lit(Val::Int(1))), Box::new(lit(Val::Int(0)))))])],
             ret: None,
-            shape: "set_error_rhs",
+            shape: "set_error_rhs", expect: None, tags: vec![]
         },
         _ => Stmt {
             reads: vec![match_one(0, node(r))],
             updates: vec![Upd::Set(vec![SetItem::Prop(0, 1, lit(Val::Str("x".into())))]), Upd::Set(vec![SetItem::Labels(0, vec![3])])],
             ret: if with_ret { Some(ret_props(&[0])) } else { None },
-            shape: "two_sets",
+            shape: "two_sets", expect: None, tags: vec![]
         },
     }
 }
@@ -670,6 +858,29 @@ fn replay_known(out: &mut Out) {
                 WObs::Err(e) => format!("Err({})", e),
                 WObs::Panic(p) => format!("Panic({})", p),
             }
+        ),
+    });
+    // delete_guard_per_row
+    let mut st = GraphStore::new();
+    for q in ["CREATE (v0:C {p0: 1})-[:R]->(v1:D)", "MATCH (v0:C) CREATE (v0)-[:S]->(v1:D)"] {
+        let _ = run_stmt(&engine, &mut st, q);
+    }
+    let q = "MATCH (v0:C)-[v2]->(v1) DELETE v0, v2";
+    let o = run_stmt(&engine, &mut st, q);
+    let d = dump(&st);
+    out.known.push(KnownReplay {
+        class: "delete_guard_per_row".into(),
+        still_fails: !(matches!(o, WObs::Ok(_)) && d.nodes.len() == 2 && d.rels.is_empty()),
+        detail: format!(
+            "{} on (c:C)-[:R]->(:D), (c)-[:S]->(:D): the engine {} and leaves {} node(s), {} relationship(s); openCypher deletes c and both relationships (2 nodes, 0 relationships left)",
+            q,
+            match &o {
+                WObs::Ok(_) => "answers Ok".to_string(),
+                WObs::Err(e) => format!("refuses ({})", e),
+                WObs::Panic(p) => format!("panics ({})", p),
+            },
+            d.nodes.len(),
+            d.rels.len()
         ),
     });
     let mut st = fresh();
@@ -761,6 +972,9 @@ fn main() {
             let after = dump(&store);
             *shapes.entry(s.shape).or_insert(0) += 1;
             out.count(s.shape);
+            for t in &s.tags {
+                out.count(t);
+            }
             let changed = g_graph(&before) != g_graph(&after);
             match &obs {
                 WObs::Ok(_) => out.count("engine_ok"),
